@@ -4,6 +4,7 @@ import (
 	"bytes"
 	"context"
 	"fmt"
+	"runtime"
 	"runtime/debug"
 	"testing"
 
@@ -337,6 +338,56 @@ func TestC20Socket(t *testing.T) {
 		}
 		if !bytes.Equal(got, newBytes) {
 			t.Fatalf("recycled socket read %s, the new connection carried %s", vt.Hex(got), vt.Hex(newBytes))
+		}
+	})
+}
+
+// ---- pooled byte buffers -------------------------------------------------------------
+
+// TestC20ByteBuffers: every frame is assembled in a pooled byte buffer; whatever the pool has
+// learnt from earlier traffic (it re-calibrates its default and maximum sizes after tens of
+// thousands of releases), an acquired buffer is empty like a fresh one.
+func TestC20ByteBuffers(t *testing.T) {
+	rec := vt.NewRec(t, "C20", "bytebuffers", "a generated size profile (1-3 size classes from 1 B to 64 KiB with weights) drives 50 000 acquire / write / release rounds of the process-wide byte-buffer pool per case, with garbage collections in between so that the pool has to make new buffers, and the pool's re-calibration threshold (42 000 releases of one size class) is crossed; oracle: every acquired buffer has length 0, and what is written to it is what it holds; non-trivial always; distinct by profile")
+	rapid.Check(t, func(t *rapid.T) {
+		nclass := rapid.IntRange(1, 3).Draw(t, "classes")
+		sizes := make([]int, nclass)
+		for i := range sizes {
+			sizes[i] = rapid.SampledFrom([]int{1, 40, 64, 100, 128, 500, 1024, 4000, 65536}).Draw(t, "size")
+		}
+		gcEvery := rapid.SampledFrom([]int{997, 4999, 20011}).Draw(t, "gcevery")
+		rec.Case(fmt.Sprintf("%v|%d", sizes, gcEvery), true, fmt.Sprintf("classes=%d", nclass))
+		if rec.WantSample() {
+			rec.Sample(map[string]interface{}{"sizes": sizes, "gc_every": gcEvery})
+		}
+		fill := make([]byte, 65536)
+		for i := range fill {
+			fill[i] = byte(i*7 + 1)
+		}
+		for round := 0; round < 50000; round++ {
+			bb := utils.AcquireByteBuffer()
+			if bb.Len() != 0 || len(bb.B) != 0 {
+				t.Fatalf("C20 violated: round %d: an acquired byte buffer is not empty: length %d (first bytes %x) - a fresh buffer is empty", round, bb.Len(), bb.B[:min(len(bb.B), 16)])
+			}
+			n := sizes[round%nclass]
+			bb.Write(fill[:n])
+			if bb.Len() != n || !bytes.Equal(bb.B, fill[:n]) {
+				t.Fatalf("C20 violated: round %d: after writing %d bytes into an acquired buffer it holds %d bytes", round, n, bb.Len())
+			}
+			// two buffers at once now and then (pack + filter output)
+			if round%5 == 0 {
+				b2 := utils.AcquireByteBuffer()
+				if b2.Len() != 0 {
+					t.Fatalf("C20 violated: round %d: a second acquired byte buffer is not empty: length %d", round, b2.Len())
+				}
+				b2.Write(fill[:n/2+1])
+				utils.ReleaseByteBuffer(b2)
+			}
+			utils.ReleaseByteBuffer(bb)
+			if round%gcEvery == gcEvery-1 {
+				runtime.GC()
+				runtime.GC()
+			}
 		}
 	})
 }
